@@ -181,7 +181,11 @@ func (r *importReader) readString(save *[]string) {
 				r.syntaxError()
 			}
 			if c == '\\' {
-				r.nextByte(false)
+				// The escaped byte cannot be a newline either: an interpreted
+				// string never spans lines.
+				if r.nextByte(false) == '\n' {
+					r.syntaxError()
+				}
 			}
 		}
 	default:
